@@ -3,13 +3,14 @@
  * One op per stdin line, one answer line per op.  Every op runs the real code in forked children so
  * that errx()/sanitizer aborts/escapes are observable and confined:
  *
- *   sink JAIL CWD DESTHEX P Y UMASK FDMODE STREAMHEX
+ *   sink JAIL CWD DESTHEX P Y UMASK FDMODE FSIZE STREAMHEX
  *        child: chroot(JAIL); chdir(CWD); umask(UMASK); real pcp_server() with outfile = DEST,
  *        preserve = P, target_is_dir = Y, reading STREAM (FDMODE 0: one socket as infd = outfd, like
  *        dsh.c _pcp_server; 1: two pipes, like main.c _pcp_remote_server on stdin/stdout).
+ *        FSIZE > 0: the receiver runs with RLIMIT_FSIZE = FSIZE bytes and SIGXFSZ ignored (write faults).
  *        answer: rc=<exit> sig=<signal> san=<0|1> replies=<hex> err=<hex tail of stderr>
  *
- *   rt JAIL CWD DESTHEX P Y UMASK SRCDIR REVERSE HOSTHEX NAMEHEX...
+ *   rt JAIL CWD DESTHEX P Y UMASK FSIZE SRCDIR REVERSE HOSTHEX NAMEHEX...
  *        server child as above; client child: chdir(SRCDIR); real pcp_expand_dirs(names) + pcp_client()
  *        (pcp_client flag = REVERSE, host = HOST); the parent relays between the two and logs both
  *        directions.
@@ -41,6 +42,7 @@
 #include <sys/wait.h>
 #include <sys/socket.h>
 #include <stdint.h>
+#include <sys/resource.h>
 
 #define C2S_HEX_LIMIT 6000   /* longer client streams are reported by length + crc32 only */
 #define MAX_TIMEOUTS 3       /* after that many hanging cases the rest of the batch is answered `skipped` */
@@ -190,10 +192,21 @@ static void put_errtail(const dyn_t *e)
 /* ---- children ----------------------------------------------------------------------------- */
 
 static void server_child(const char *jail, const char *cwd, char *dest, int p, int y, int um,
-                         int infd, int outfd, int errfd)
+                         int infd, int outfd, int errfd, long fsize)
 {
     struct pcp_server svr[1];
     dup2(errfd, 2);
+    if (fsize > 0) {
+        /* write-fault injection: like a full disk / exceeded quota, write(2) beyond the limit is short
+         * or fails with EFBIG (SIGXFSZ ignored), ftruncate(2) growing beyond it fails */
+        struct rlimit rl;
+        rl.rlim_cur = rl.rlim_max = (rlim_t) fsize;
+        signal(SIGXFSZ, SIG_IGN);
+        if (setrlimit(RLIMIT_FSIZE, &rl) < 0) {
+            dprintf(2, "HARNESS: setrlimit failed: %s\n", strerror(errno));
+            _exit(97);
+        }
+    }
     if (chroot(jail) < 0 || chdir(cwd) < 0) {
         dprintf(2, "HARNESS: chroot/chdir failed: %s\n", strerror(errno));
         _exit(97);
@@ -266,7 +279,7 @@ static char *tok(char **sp)
 static void op_sink(char *rest)
 {
     char *jail = tok(&rest), *cwd = tok(&rest), *desthex = tok(&rest), *ps = tok(&rest), *ys = tok(&rest),
-         *ums = tok(&rest), *fdm = tok(&rest), *shex = tok(&rest);
+         *ums = tok(&rest), *fdm = tok(&rest), *fsz = tok(&rest), *shex = tok(&rest);
     if (!shex) { printf("bad-op\n"); return; }
     if (ntimeouts >= MAX_TIMEOUTS) { printf("skipped rc=-1 sig=997 san=0 replies=- err=-\n"); return; }
     size_t dl, sl;
@@ -288,7 +301,8 @@ static void op_sink(char *rest)
     if (pid == 0) {
         close(perr[0]);
         if (fdmode == 0) close(sv[0]); else { close(pin[1]); close(pout[0]); }
-        server_child(jail, cwd, dest, atoi(ps), atoi(ys), (int) strtol(ums, NULL, 8), c_in, c_out, perr[1]);
+        server_child(jail, cwd, dest, atoi(ps), atoi(ys), (int) strtol(ums, NULL, 8), c_in, c_out, perr[1],
+                     atol(fsz));
     }
     close(perr[1]);
     if (fdmode == 0) close(sv[1]); else { close(pin[0]); close(pout[1]); }
@@ -317,7 +331,7 @@ static void op_sink(char *rest)
 static void op_rt(char *rest)
 {
     char *jail = tok(&rest), *cwd = tok(&rest), *desthex = tok(&rest), *ps = tok(&rest), *ys = tok(&rest),
-         *ums = tok(&rest), *srcdir = tok(&rest), *revs = tok(&rest), *hosthex = tok(&rest);
+         *ums = tok(&rest), *fsz = tok(&rest), *srcdir = tok(&rest), *revs = tok(&rest), *hosthex = tok(&rest);
     if (!hosthex) { printf("bad-op\n"); return; }
     if (ntimeouts >= MAX_TIMEOUTS) {
         printf("skipped crc=-1 csig=997 src=-1 ssig=997 san=0 c2slen=0 c2scrc=0 c2s=- s2c=- err=-\n");
@@ -338,7 +352,8 @@ static void op_rt(char *rest)
     pid_t spid = fork();
     if (spid == 0) {
         close(sc[0]); close(sc[1]); close(ss[0]); close(perr[0]);
-        server_child(jail, cwd, dest, atoi(ps), atoi(ys), (int) strtol(ums, NULL, 8), ss[1], ss[1], perr[1]);
+        server_child(jail, cwd, dest, atoi(ps), atoi(ys), (int) strtol(ums, NULL, 8), ss[1], ss[1], perr[1],
+                     atol(fsz));
     }
     pid_t cpid = fork();
     if (cpid == 0) {
